@@ -2,6 +2,7 @@ package main
 
 import (
 	"fmt"
+	"go/token"
 	"sort"
 	"strings"
 
@@ -221,6 +222,13 @@ func init() {
 			setq := r.One(q, "bucket write", "keeper.Keeper.setQueuedUndelegations")
 			if setq != nil {
 				// every path to the bucket write passes a store that puts one of the literals into the bucket variable
+				// (the variable is identified by its role: it is what setQueuedUndelegations is given)
+				var bucketAlloc *ssa.Alloc
+				if args := setq.Common().Args; len(args) > 0 {
+					if u, ok := args[len(args)-1].(*ssa.UnOp); ok && u.Op == token.MUL {
+						bucketAlloc, _ = rootAlloc(u.X)
+					}
+				}
 				var puts []ssa.Instruction
 				for _, b := range q.Blocks {
 					for _, in := range b.Instrs {
@@ -229,7 +237,7 @@ func init() {
 							for _, a := range lits {
 								if v.Contains(qa.Term(a)) {
 									if root, _, _ := qa.addrPath(st.Addr); strings.HasPrefix(root, "alloc#") {
-										if al, ok := rootAlloc(st.Addr); ok && al.Comment == "queue" {
+										if al, ok := rootAlloc(st.Addr); ok && al == bucketAlloc {
 											puts = append(puts, st)
 										}
 									}
